@@ -4,6 +4,6 @@ LensA == <<1, 2, 0>>
 LensB == <<2, 1>>
 LensC == <<0, 3, 1>>
 LensD == <<1, 1, 1, 2>>
-View == <<nsent, wbuf, pipe, rbuf, delivered, wclosed, eos, pend>>
+View == <<nsent, wbuf, hold, pipe, rbuf, delivered, wclosed, eos, pend, flushed>>
 ExportJson == (ExportSched /\ ~ENABLED Next) => PrintT("SCHED " \o ToJson([steps |-> sched]))
 =============================================================================
